@@ -106,6 +106,11 @@ def run(tier, seed):
     phases.append(("deep", [["c06", "dfs", dp[0], dp[1], dp[2], dp[3], i, n, cfg["deep_budget"]] for i in range(n)], dp))
     wk = cfg["walk"]
     phases.append(("walk", [["c06", "walk", seed * 1000 + i, cfg["walks"], wk[0], wk[1], wk[2], wk[3]] for i in range(n)], wk))
+    # the same three phases with the SIGCHLD handler enabled (CICADA_ENABLE_SIG_HANDLER=1): statuses are consumed by the
+    # asynchronous handler (its run is a scheduler choice) and parked; the poll only applies what is parked
+    phases.append(("exhaustive-handler", [["c06", "dfs", ex[0], ex[1], ex[2], ex[3], i, n, 10 ** 9, "handler"] for i in range(n)], ex))
+    phases.append(("deep-handler", [["c06", "dfs", dp[0], dp[1], dp[2], dp[3], i, n, cfg["deep_budget"] // 2, "handler"] for i in range(n)], dp))
+    phases.append(("walk-handler", [["c06", "walk", seed * 1000 + 500 + i, cfg["walks"] // 2, wk[0], wk[1], wk[2], wk[3], "handler"] for i in range(n)], wk))
     total_exec = total_states = 0
     completed = 0
     samples = []
@@ -130,14 +135,17 @@ def run(tier, seed):
             for v in o["violations"]:
                 sig = v["signature"]
                 # the position of the check (after=...) is context, not identity
-                rep.violate(sig, {"phase": name, "bound": list(bound), "path": v["path"]}, {"count": v["count"], "detail": v["detail"]})
+                if name.endswith("-handler"):
+                    sig += ":sigchld-handler-mode"
+                rep.violate(sig, {"phase": name, "bound": list(bound), "path": v["path"], "handler": name.endswith("-handler")},
+                            {"count": v["count"], "detail": v["detail"]})
     rep.evaluations = total_exec
     rep.held = total_exec - sum(len(v) for v in rep.violations.values())
     rep.distinct = set(range(total_states))
     rep.samples = samples
     rep.rule = ("schedules = sequences of scheduler choices {launch fg/bg pipeline of 1..3 processes (pids far above pid_max and not "
                 "monotonic), child event stop/continue/exit 0/exit 3/kill on any process, delivery of any pending notification to "
-                "the blocked foreground wait, prompt-time poll, fg, bg}; exhaustive depth-first enumeration within the first bound, "
+                "the blocked foreground wait, prompt-time poll, fg, bg; in the -handler phases also a run of the asynchronous SIGCHLD handler, which parks what it drains}; exhaustive depth-first enumeration within the first bound, "
                 "budgeted depth-first within the second, random walks within the third (bounds in coverage.phases).  Every "
                 "execution re-runs the real code from a fresh Shell.  distinct_nontrivial = distinct (kernel state, job table, "
                 "parked-event maps) states reached, summed over shards.")
@@ -178,7 +186,8 @@ def replay(path):
     for c in data["cases"]:
         b = c["case"]["bound"]
         o = subprocess.run([harness, "c06", "replay", str(b[0]), str(b[1]), str(b[2]), str(b[3]),
-                            ",".join(str(x) for x in c["case"]["path"])], capture_output=True, text=True)
+                            ",".join(str(x) for x in c["case"]["path"])] + (["handler"] if c["case"].get("handler") else []),
+                           capture_output=True, text=True)
         print(o.stdout[:2000])
         if '"violations":[]' not in o.stdout:
             bad = 1
